@@ -67,6 +67,7 @@ type Contract struct {
 	Sites       map[string][]*Clause
 	Lets        []*SLetDecl
 	GhostSets   []*GhostSet
+	DeferBinds  map[string]map[string]SExpr // loop key -> captured variable -> its value in iteration $i
 	used        bool
 }
 
@@ -141,7 +142,7 @@ type SpecFile struct {
 var headerRe = regexp.MustCompile(`^func\s*(\(([^)]*)\))?\s*([A-Za-z0-9_./$:\[\]*]+)\s*\(([^)]*)\)\s*(\(([^)]*)\))?\s*$`)
 
 var clauseKw = map[string]bool{"requires": true, "ensures": true, "modifies": true, "allocates": true, "maypanic": true,
-	"trusted": true, "onpanic": true, "loop": true, "site": true, "let": true, "oldlet": true, "noinline": true, "ghostset": true}
+	"trusted": true, "onpanic": true, "loop": true, "site": true, "let": true, "oldlet": true, "noinline": true, "ghostset": true, "deferloop": true}
 var topKw = map[string]bool{"opaque": true, "typeinv": true, "locset": true, "func": true, "pure": true, "ufunc": true, "axiom": true, "lemma": true, "ghost": true, "package": true, "scan": true}
 
 // readSpecLines collects the //@ lines of a file, joining continuation lines.
@@ -429,6 +430,42 @@ func parseSpecFile(path string) (*SpecFile, error) {
 				cur.Trusted = true
 			case "noinline":
 				cur.NoInline = true
+			case "deferloop":
+				// deferloop <loop key>: invariant[label] expr($j)   |   binds name == expr($i)
+				j := strings.Index(rest, ":")
+				if j < 0 {
+					return nil, fail("deferloop: expected ':'")
+				}
+				key := normSpace(rest[:j])
+				body := strings.TrimSpace(rest[j+1:])
+				switch {
+				case strings.HasPrefix(body, "invariant"):
+					labels, r := parseLabels(strings.TrimSpace(strings.TrimPrefix(body, "invariant")))
+					e, err := parseSpecExpr(r)
+					if err != nil {
+						return nil, fail("%v", err)
+					}
+					cur.Loops["deferloop "+key] = append(cur.Loops["deferloop "+key], &Clause{Kind: "invariant", Labels: labels, Src: r, Expr: e, Where: w})
+				case strings.HasPrefix(body, "binds "):
+					r := strings.TrimSpace(strings.TrimPrefix(body, "binds "))
+					k := strings.Index(r, "==")
+					if k < 0 {
+						return nil, fail("deferloop binds: expected name == expr")
+					}
+					e, err := parseSpecExpr(r[k+2:])
+					if err != nil {
+						return nil, fail("%v", err)
+					}
+					if cur.DeferBinds == nil {
+						cur.DeferBinds = map[string]map[string]SExpr{}
+					}
+					if cur.DeferBinds[key] == nil {
+						cur.DeferBinds[key] = map[string]SExpr{}
+					}
+					cur.DeferBinds[key][strings.TrimSpace(r[:k])] = e
+				default:
+					return nil, fail("deferloop: expected invariant or binds")
+				}
 			case "loop", "site":
 				// loop <fingerprint> #n: invariant[label] expr | modifies a, b
 				j := strings.Index(rest, ":")
